@@ -11,7 +11,7 @@ import itertools
 
 from ..common import leanio, rtlgen
 from ..common.leanio import InfraError
-from . import c07_flip, c01_mamba
+from . import c07_flip, c01_mamba, c09_place
 
 PID = 'C07'
 DRIVERS = ['rtl', 'flip']
@@ -23,16 +23,23 @@ DRIVERS = DRIVERS + c01_mamba.DRIVERS
 MODULE = MODULE + [c01_mamba.MODULE]
 THEOREMS = THEOREMS + c01_mamba.THEOREMS_FF
 THEOREM_MODULE.update({t: c01_mamba.MODULE for t in c01_mamba.THEOREMS_FF})
+# the placement rules of `<<=` (Model/Place.lean, Props/C09p.lean: an accepted `<<=` assigns whole signals, every register it can assign at
+# run time is marked as a flip-flop) and the accepted shapes simulated as registers (c09_place.py)
+DRIVERS = DRIVERS + c09_place.DRIVERS
+MODULE = MODULE + [c09_place.MODULE]
+THEOREMS = THEOREMS + c09_place.THEOREMS_FF
+THEOREM_MODULE.update({t: c09_place.MODULE for t in c09_place.THEOREMS_FF})
 TRUSTED = [
   'Model/Rtl.lean ff part: <<= evaluates on current values and writes the shadow; flip installs the shadow of written registers; '
   'update_ff blocks assign whole top-level signals only (the DSL rejects slices/fields on the LHS of <<=)',
-] + c07_flip.TRUSTED + c01_mamba.TRUSTED
+] + c07_flip.TRUSTED + c01_mamba.TRUSTED + c09_place.TRUSTED
 ASSUMPTIONS = [
   'struct-typed registers are bit ranges of one signal in the model (their leaves flip together by construction); generated registers are Bits-typed',
   'update_ff blocks reading non-signal Python state are outside the hypothesis',
 ]
 RULE = ('random designs with 1-5 registers whose next-state expressions read other registers; a case = (design, pass group or forced ff permutation); '
-        'non-trivial = >= 2 ff blocks or a register read by another ff block; distinct by (source, flow, permutation)')
+        'non-trivial = >= 2 ff blocks or a register read by another ff block; distinct by (source, flow, permutation); plus the update_ff part of the '
+        'operator-placement stream (every target shape / index form / binding form on the left of <<=, in the block or in a helper, two pass groups each)')
 
 def run_with_probes(cls, d, perm, cycles):
   """simple flow with schedule_ff = [p, ff1, p, ff2, p, ...]: the probes must all see the same values"""
@@ -188,6 +195,8 @@ def run(ck):
   # the grouping loop of schedule_posedge_flip (Props/C07f.lean): the C07 designs above and component trees
   c07_flip.run(ck, flip_tops)
   c01_mamba.run(ck, part='ff')
+  # every target shape / index form / binding form on the left of `<<=`, in the block or in a helper: what elaborates is a register
+  c09_place.run(ck, 'C07')
 
 def flip_lines_add(ck, top, src, acc):
   # the generated double_buffer source lives in linecache under one fixed name: parse it right after scheduling
@@ -199,5 +208,7 @@ def replay(ck, data):
   print(data.get('kind'), data.get('signature')); print(str(data.get('detail'))[:1500])
   if (data.get('case') or {}).get('pass') in ('Mamba2020', 'HeuTopoUnrollSim'): return c01_mamba.replay(ck, data)
   r = c07_flip.replay(ck, data)
+  if r is not None: return r
+  r = c09_place.replay(ck, data)
   if r is not None: return r
   return rtlgen.replay_source(ck, data.get('case') or {})
